@@ -25,7 +25,8 @@ def sig_queries():
     for j in range(3):
         qs.append(mk(f'sig_checksigadd_depth{j}', 'op==0xba', j, max(j, 1), 16, ['H_EXEC=1', 'H_BASE0', 'H_NO_OK', 'H_CANARY_ERR', 'H_SV=3']))
     # CHECKMULTISIG(VERIFY): case split over the number of keys / signatures (window = nk + ns + 3 items)
-    for (nk, ns, tier) in ((0, 0, 'quick'), (1, 0, 'quick'), (1, 1, 'quick'), (2, 1, 'thorough'), (2, 2, 'thorough'), (3, 2, 'thorough'), (3, 1, 'thorough'), (3, 3, 'thorough')):
+    # (2 keys / 2 signatures and 3 keys were tried in the thorough tier: the external solver fails or cbmc runs out of memory at 14 GB - removed)
+    for (nk, ns, tier) in ((0, 0, 'quick'), (1, 0, 'quick'), (1, 1, 'quick'), (2, 1, 'thorough')):
         n = nk + ns + 3
         for op, nm in ((0xae, 'multisig'), (0xaf, 'multisigverify')):
             if nm == 'multisigverify' and (nk, ns) not in ((1, 0), (2, 1)): continue
@@ -53,7 +54,7 @@ META = {'level': 'proof', 'trusted_base': TRUSTED + ['stubs/step_env_sig.h: ECDS
  ],
  'explanation': 'per-opcode contract of the real signature-opcode code (StepScript cases + EvalChecksig* + encoding predicates, all sliced verbatim) against harness/spec_sig.h with cryptographic verdicts as oracles'}
 MANIFEST = {
- 'text': 'Script-level half: for every stack, flag set and oracle verdict, OP_CHECKSIG(VERIFY) in legacy/segwit-v0/tapscript/taproot-key-path, OP_CHECKSIGADD and OP_CHECKMULTISIG(VERIFY) (case split up to 3 keys) submit exactly the prescribed signature/key pairs in order, select exactly the encoding error the active flags prescribe (DER, low-S, hash type, key type, witness key type, NULLFAIL, NULLDUMMY, CONST_SCRIPTCODE), charge 50 units of tapscript budget per non-empty signature before looking at the key, enforce key/signature count limits with the op-count charge, and push the prescribed result.',
- 'note': 'Digest construction (SignatureHash*) and signature validity (secp256k1) are oracles: not applicable. Multisig beyond 3 keys not modelled; element storage 16 bytes in multisig queries.',
+ 'text': 'Script-level half: for every stack, flag set and oracle verdict, OP_CHECKSIG(VERIFY) in legacy/segwit-v0/tapscript/taproot-key-path, OP_CHECKSIGADD and OP_CHECKMULTISIG(VERIFY) (case split: 0 and 1 keys without signature, 1 key with 1 signature; 2 keys with 1 signature in the thorough tier) submit exactly the prescribed signature/key pairs in order, select exactly the encoding error the active flags prescribe (DER, low-S, hash type, key type, witness key type, NULLFAIL, NULLDUMMY, CONST_SCRIPTCODE), charge 50 units of tapscript budget per non-empty signature before looking at the key, enforce key/signature count limits with the op-count charge, and push the prescribed result.',
+ 'note': 'Digest construction (SignatureHash*) and signature validity (secp256k1) are oracles: not applicable. Multisig with 2 signatures or 3 and more keys is not decided (the queries do not finish: solver failure / 14 GB); element storage 10 bytes in multisig queries.',
  'technique': 'assume/assert contracts of the real signature-opcode code with oracle stubs (ghost-logged arguments), discharged by CBMC per opcode / script version / key-count case',
  'design_ref': 'DESIGN.md 6 (C02)'}
